@@ -181,7 +181,7 @@ PROPS = {
         "scale": {"quick": 1, "thorough": 40},
         "floors": {
             "quick": {"marginal_map": 1400, "bb_real": 1400, "meu": 1400, "bb_eu": 1400, "queries_with_ignored_variable": 200,
-                      "cases_with_utilities": 500, "cases_with_tiny_utilities": 300, "cases_over_spread_labels": 300, "cases_with_tied_optima": 1000, "queries_after_other_queries_in_the_same_builder": 600},
+                      "cases_with_utilities": 500, "cases_with_tiny_utilities": 300, "cases_over_spread_labels": 300, "cases_with_tied_optima": 1000, "queries_after_other_queries_in_the_same_builder": 600, "cases_with_8_to_10_variables": 100},
             "thorough": {"marginal_map": 50000},
         },
         "rule": "One evaluation = one optimisation query on a BDD (random order, <= 7 variables; parity / ite(x,g,!g) / threshold / random functions) compared with exhaustive maximisation by the oracle. marginal_map and bb::<RealSemiring>: query set = empty, all, or a random subset in random order (incl. variables the function ignores); every weight in [0,1] (dyadic, sixteenths), non-query variables normalised, query weights arbitrary with frequent near-ties; expected optimum = max over query assignments a of prod w(a) * U(f|a), U the exact unsmoothed count (S2). meu and bb::<ExpectedUtility>: decision variables carry (1,0),(1,0), chance variables (p,0),(1-p,0), utility-bearing variables (1,u_lo),(1,u_hi) with non-negative dyadic utilities placed below every decision variable in the order; utilities are additionally scaled by 2^-s, s in {0,10,40,70,200} (exact) so that tiny magnitudes occur; expected optimum = max over decision assignments of the utility component of U(f|a). Checks: returned value equals the optimum EXACTLY (S13), the returned partial model assigns every query/decision variable, and the oracle value of that model equals the optimum (ties free). Non-trivial = function neither constant nor literal and a non-empty query; distinct = distinct (function, order, query, weights, query kind). Wide regime: the input's (at most 10) variables are spread over up to 200 rsdd labels, biased to the 64/128 word boundaries, most indices unused; orders, vtrees, partial models and weight tables cover the whole label range, while the oracle keeps working on the dense variables through the harness's own label map. Half of the cases first ask the same kinds of query about another function in the same builder (sharing nodes) and about the negation, under swapped weights, before the checked queries; a quarter use very coarse weights (0, 1/2, 1; utilities 0/1) so that optima and sibling bounds tie exactly (floor: tied optima observed).",
@@ -194,7 +194,7 @@ PROPS = {
             "quick": {"lru_gets": 300000, "lru_hits": 10000, "lru_overwrites": 100000, "lru_histories_with_growth": 300,
                       "paired_results": 30000, "paired_histories_with_overwrites": 500, "paired_histories_with_cache_growth": 300,
                       "cold_replays": 3000, "ite_table_gets": 40000, "ite_table_lru_hits": 15000, "ite_table_lru_overwrites": 30000,
-                      "ite_table_lru_grows": 300},
+                      "ite_table_lru_grows": 300, "lru_default_size_grows": 2},
             "thorough": {"lru_gets": 8000000},
         },
         "rule": "Four monitors. (a') the two ITE-cache adapters LruIteTable / AllIteTable driven directly through the public IteTable trait (insert / get / hash) on standard triples over a pool of real BDD pointers, as IteChoice, IteComplChoice and IteConst, with the adapter's own hash or caller-supplied colliding hashes (one hash per triple), initial capacity 2^0..2^4: get must return None (lossy) or the value most recently inserted for exactly that triple with the complement flag re-applied; AllIteTable must return exactly the model's value. (a) util::lru::Lru<K,V> driven directly: 50-2500 random insert/get operations per cache on 2-200 keys, initial capacity 2^0..2^6 slots, hashes a function of the key chosen adversarially (spread, 5 buckets, equal low bits that separate only after growth, collisions up to a capacity); every inserted value is fresh, so a stale or foreign value is distinguishable; model = HashMap key -> last value; get must return None or exactly the model's value. (b) The same generated BDD operation history is executed on RobddBuilder<AllIteTable> and on RobddBuilder<LruIteTable> whose cache starts at 2^0..2^4 slots (hook) and whose unique table starts at 2..64 slots; after every operation the two results must have the same canonical serialisation (isomorphism class incl. complement marks). (c) SDD: every 3rd operation of a long-lived CompressionSddBuilder (warm apply and ite caches) is redone in a fresh builder on operands rebuilt from their truth tables by Shannon expansion, and the isomorphism classes must agree. Floors require overwrites, cache growth and cache hits to have been observed. evaluations = caches / paired histories / SDD histories; all non-trivial; distinct = distinct inputs.",
@@ -247,7 +247,7 @@ QUICK_SCALE = {"C01": 8, "C02": 24, "C03": 30, "C04": 24, "C05": 15, "C06": 10, 
 # thorough tier: sized so that each property takes roughly 1-5 minutes on 16 cores
 THOROUGH_SCALE = {"C01": 80, "C02": 64, "C03": 800, "C04": 200, "C05": 150, "C06": 100, "C07": 80, "C08": 300, "C09": 120,
                   "C10": 40, "C11": 120, "C12": 800, "C13": 300, "C14": 150, "C15": 80, "C16": 60, "C17": 300, "C18": 64}
-UNSCALED = {"semantic_big_builders", "semantic_big_minterms_checked", "bitgrid_pairs", "exh3_blocks", "exh3_orders", "domains_exhaustive", "shapes_enumerated", "edge_cases", "default_table_growths",
+UNSCALED = {"lru_default_size_grows", "semantic_big_builders", "semantic_big_minterms_checked", "bitgrid_pairs", "exh3_blocks", "exh3_orders", "domains_exhaustive", "shapes_enumerated", "edge_cases", "default_table_growths",
             "big_rederivations", "triples", "pairs", "lattice_pairs", "field_sub_pairs"}
 for _pid, _k in QUICK_SCALE.items():
     _c = PROPS[_pid]
